@@ -593,6 +593,8 @@ func init() {
 		e.RParseGuard()
 		e.RResolverFile()
 		e.RGuard("fragger", "decorate", "restore", "clone")
+		e.RGates()
+		e.RMapInit()
 		e.RAssert()
 		e.RCover("fragger", e.astNodeNames(), false)
 		e.RCover("decorate", e.astNodeNames(), false)
